@@ -238,8 +238,78 @@ type Discharger struct {
 	KeepFailed string // directory where failed obligations are written
 }
 
+// mergeSameContext: heavy (quantified) obligations that share the very same assumptions (same path, same program point)
+// are first tried as ONE query proving the conjunction of their goals; only if that does not succeed are they
+// discharged one by one (which also localises a failure).
+func (d *Discharger) mergeSameContext(groups [][]*Oblig) {
+	type bucket struct {
+		obs []*Oblig
+	}
+	isHeavy := func(o *Oblig) bool {
+		if o.Template != nil || o.Kind == "cover" || o.Lite != nil {
+			return false
+		}
+		for _, a := range o.Assumes {
+			if strings.Contains(a.S, "(forall ") || strings.Contains(a.S, "(exists ") {
+				return true
+			}
+		}
+		return strings.Contains(o.Goal.S, "(forall ") || strings.Contains(o.Goal.S, "(exists ")
+	}
+	buckets := map[string]*bucket{}
+	var order []string
+	for _, g := range groups {
+		for _, o := range g {
+			if !isHeavy(o) || o.Decls == nil {
+				continue
+			}
+			var sb strings.Builder
+			fmt.Fprintf(&sb, "%p|%d|", o.Decls, len(o.Assumes))
+			for _, a := range o.Assumes {
+				sb.WriteString(a.S)
+				sb.WriteByte('|')
+			}
+			k := sb.String()
+			if buckets[k] == nil {
+				buckets[k] = &bucket{}
+				order = append(order, k)
+			}
+			buckets[k].obs = append(buckets[k].obs, o)
+		}
+	}
+	ctx := context.Background()
+	var wg sync.WaitGroup
+	sem := make(chan struct{}, d.Workers)
+	for _, k := range order {
+		b := buckets[k]
+		if len(b.obs) < 2 {
+			continue
+		}
+		wg.Add(1)
+		sem <- struct{}{}
+		go func(obs []*Oblig) {
+			defer wg.Done()
+			defer func() { <-sem }()
+			var goals []Term
+			for _, o := range obs {
+				goals = append(goals, o.Goal)
+			}
+			m := &Oblig{Name: obs[0].Name + "#merged", Kind: obs[0].Kind, Assumes: obs[0].Assumes, Goal: tAnd(goals...), Decls: obs[0].Decls}
+			r, _ := solveOne(ctx, solvers[d.Primary[0]], d.Prelude, m, 20000, d.Dir, d.Stats)
+			if r == "unsat" {
+				for _, o := range obs {
+					o.Result = "unsat"
+					o.Solver = solvers[d.Primary[0]].Name + fmt.Sprintf(" (conjunction of %d goals of one program point)", len(obs))
+				}
+			}
+		}(b.obs)
+	}
+	wg.Wait()
+}
+
 // discharge runs all obligations (grouped in batches that share declarations) through the portfolio.
 func (d *Discharger) discharge(groups [][]*Oblig) {
+	d.mergeSameContext(groups)
 	type job struct {
 		obs   []*Oblig
 		decls string
@@ -275,6 +345,9 @@ func (d *Discharger) discharge(groups [][]*Oblig) {
 		// quantified obligations get a solver process of their own (a slow one must not starve the others)
 		var light []*Oblig
 		for _, o := range g {
+			if o.Result == "unsat" && o.Solver != "" && o.Kind != "cover" {
+				continue // already discharged as part of a merged query
+			}
 			heavy := strings.Contains(o.Goal.S, "(forall ") || strings.Contains(o.Goal.S, "(exists ") || strings.Contains(o.Goal.S, "wf_v") || strings.Contains(o.Goal.S, "(str.++ ")
 			if !heavy {
 				for _, a := range o.Assumes {
